@@ -4,7 +4,7 @@ from fractions import Fraction as Fr
 
 from engine import loader
 from engine.runner import Acc
-from engine.util import ca_for, call, chunks, ts_dec, ts_pair
+from engine.util import ca_for, call, chunks, ts_dec, ts_pair, vary_case
 from spec import cpr as C
 from spec import cprsets as S
 from spec import frames as F
@@ -95,6 +95,7 @@ def w_lats(arg):
                 # TIS-B fine format) of the same aircraft carry the same ME field: the formats of the two frames rotate independently
                 df1 = 17 + (k // 2) % 2
                 m1 = F.es(C.me_surface(5 + (k + 1) % 4, (k * 3) % 128, 1, k % 128, 1, e1["yz"], e1["xz"]), 0x406B90 ^ (k % 5), ca_for(df1, k // 4), df1)
+                m0, m1 = vary_case(m0, k // 3), vary_case(m1, k // 5)      # each frame in its own spelling
                 acc.out.add((e0["yz"], e0["xz"], e1["yz"], e1["xz"]))
                 if k % 11 == 0:
                     acc.n += 1
@@ -169,7 +170,45 @@ def w_alias(arg):
     return acc.res()
 
 
+def w_cross(_):
+    """joint conditions across the two frames of a pair: the fields a position decode must ignore (movement, track status,
+    track, T, type code, CA/CF, DF) at corner values in BOTH frames independently - equal values included - for targets that
+    moved (0.15 NM N, 0.15 NM E, 0.1 NM diagonal) between the frames and for a stationary one."""
+    acc = Acc()
+    k = 0
+    movs = [0, 1, 2, 64, 124, 127]
+    for lat, lon in ((Fr(523081, 10000), Fr(47642, 10000)), (Fr(-3394, 100), Fr(1512, 10)), (Fr(2, 100), Fr(-1799, 10))):
+        for disp in ((0, 0), (Fr(15, 100), 0), (0, Fr(15, 100)), (Fr(-1, 10), Fr(1, 10))):
+            latB, lonB = C.offset_nm(lat, lon, disp[0], disp[1])
+            e0, e1 = C.encode(lat, lon, 0, True), C.encode(latB, lonB, 1, True)
+            if C.NL(e0["rlat"]) != C.NL(e1["rlat"]) or C.near_transition(e0["rlat"], C.EPS) or C.near_transition(e1["rlat"], C.EPS):
+                continue
+            latr, lonr = C.offset_nm(lat, lon, 5, -6)
+            lonr = S.wrap180(lonr)
+            for mov0 in movs:
+                for mov1 in movs:
+                    for st0, trk0, st1, trk1 in ((0, 0, 0, 0), (1, 127, 1, 127), (1, 1, 0, 64), (0, 127, 1, 0)):
+                        k += 1
+                        tc0, tc1 = 5 + k % 4, 5 + (k // 4) % 4
+                        df0, df1 = 17 + k % 2, 17 + (k // 2) % 2
+                        m0 = vary_case(F.es(C.me_surface(tc0, mov0, st0, trk0, 0, e0["yz"], e0["xz"], t=k % 2), 0x4840D6, ca_for(df0, k), df0), k)
+                        m1 = vary_case(F.es(C.me_surface(tc1, mov1, st1, trk1, 1, e1["yz"], e1["xz"], t=(k // 2) % 2), 0x4840D6, ca_for(df1, k // 3), df1), k // 2)
+                        for newer_even in (True, False):
+                            e = e0 if newer_even else e1
+                            t0, t1 = (9, 8) if newer_even else (8, 9)
+                            exp = [float(e["rlat"]), float(e["rlon"]), float(e["dlat"]) / 131072, float(e["dlon"]) / 131072, "cross_frame_fields"]
+                            p_ = ("position" if k % 2 else "surface_position", m0, m1, t0, t1, float(latr), float(lonr), exp)
+                            acc.n += 1
+                            s_ = judge(p_)
+                            if s_:
+                                acc.bad(s_ + ":joint_with_ignored_fields_of_both_frames", {"p": list(p_)})
+            acc.out.add(("cross", float(lat), float(disp[0]), float(disp[1])))
+    return acc.res()
+
+
 def w_any(t):
+    if t[0] == "x":
+        return w_cross(None)
     return w_alias(t[1]) if t[0] == "a" else w_lats(t[1])
 
 
@@ -189,11 +228,11 @@ def run(ctx):
     recvs = RECV_T if ctx.thorough else RECV
     al = [Fr(3, 10), Fr(100123, 10000), Fr(4001234, 100000), Fr(449, 10), Fr(5995, 100), Fr(867, 10), Fr(893, 10), Fr(2, 1)]
     al += [Fr(t) + o for t in list(C.TRANS.values())[::6] for o in (Fr(-1, 1000), Fr(1, 1000))]
-    ctx.pmap(w_any, [("l", (c, recvs, ctx.seed)) for c in chunks(lats, 6)] + [("a", al)])
+    ctx.pmap(w_any, [("l", (c, recvs, ctx.seed)) for c in chunks(lats, 6)] + [("a", al), ("x", None)])
     ctx.cov["latitudes"] = len(lats)
     ctx.cov["receiver_offsets"] = len(recvs)
 
 
 def replay(case):
     s = judge(tuple(case["p"]))
-    return [(s, case)] + [(s + ":step%d_of_%s" % (i, o), case) for i in range(3) for o in ("NSN", "SNS")] if s else []
+    return [(s, case), (s + ":joint_with_ignored_fields_of_both_frames", case)] + [(s + ":step%d_of_%s" % (i, o), case) for i in range(3) for o in ("NSN", "SNS")] if s else []
